@@ -184,6 +184,8 @@ async fn read_line(s: Reader<'_>) -> Result<String, Error> {
     let sz = s.read_line(&mut buf).await.context("readline")?;
     match sz {
         0 => Err(err_msg("EOF")),
+        // read_line also returns at end of stream: a line without terminator is a truncated message
+        _ if !buf.ends_with('\n') => Err(err_msg("EOF")),
         _ => Ok(buf),
     }
 }
